@@ -47,6 +47,7 @@ def with_state_lint(prop, run):
             shared.no_shared_object_filled_per_iteration(check, rels)
             shared.no_reused_one_shot_iterator(check, rels)
             shared.attribute_view_sites(check, rels)
+            shared.no_lazy_instance_memo(check, rels)
         from . import helpers
         try:
             helpers.helper_contracts(check)
